@@ -553,6 +553,7 @@ def setup(rep, tier):
     rep.minimum('R17.8', 6)
     rep.minimum('R17.9', 1)
     rep.minimum('R17.10', 1)
+    rep.minimum('R17.11', 1)
     if tier == 'thorough':
         rep.minimum('R17.5', 1)
     rep.trusted.append('python port of log2_frac (celt/cwrs.c) used as the generator oracle for the pulse cache; exact integer recurrence for U')
@@ -891,6 +892,91 @@ def r17_10(rep, prog):
     return n
 
 
+# ------------------------------------------------------------------ R17.11
+def r17_11(rep, prog):
+    """symbol re-mapping around a shared table is a bijection: where the encoder passes an expression of one variable
+    (`2*qi ^ -(qi<0)`, a zig-zag map) as the symbol for a constant table and the decoder re-maps the symbol it read from
+    the same table in the next statement (`qi = (qi>>1) ^ -(qi&1)`), the two maps are inverse on every symbol of the table:
+    enc(dec(s)) == s for s in 0..len-1, and the values dec produces are pairwise different.  Both expressions are read
+    from the source and evaluated over the table's finite symbol set."""
+    from .. import decide
+    enc, dec = {}, {}
+    for f in prog.functions_all:
+        if not f.file.startswith('celt/'):
+            continue
+        for bid in f.blocks:
+            sts = f.blocks[bid]['stmts']
+            for j, st in enumerate(sts):
+                for x in sx.walk(st):
+                    if x[0] != 'call':
+                        continue
+                    cn = sx.callee_name(x) or ''
+                    if cn.startswith('ec_enc_icdf') and len(x[2]) >= 3:
+                        t = sx.lvalue_root(x[2][2])
+                        t = t[0] if isinstance(t, tuple) else t
+                        vs = set(sx.key(y) for y in sx.walk(x[2][1]) if sx.kind(y) in ('local', 'param'))
+                        if isinstance(t, list) and sx.kind(t) == 'global' and len(vs) == 1 and sx.kind(sx.strip(x[2][1])) not in ('local', 'param'):
+                            enc.setdefault(t[1], []).append((f, sx.line(x), x[2][1], list(vs)[0]))
+                if sx.kind(st) == 'assign' and sx.kind(sx.strip(st[1])) == 'local' and sx.kind(sx.strip(st[2])) == 'call' and (sx.callee_name(sx.strip(st[2])) or '').startswith('ec_dec_icdf'):
+                    c = sx.strip(st[2])
+                    t = sx.lvalue_root(c[2][1]) if len(c[2]) >= 2 else None
+                    t = t[0] if isinstance(t, tuple) else t
+                    if isinstance(t, list) and sx.kind(t) == 'global':
+                        # the statement that follows in every execution: next in the block, or first of the join block when
+                        # the re-mapping is written with ?: (its arms are separate, empty blocks)
+                        rest, bb = sts[j + 1:], bid
+                        cfx = cfgm.CFG(f)
+                        for _ in range(3):
+                            if rest:
+                                break
+                            bb = cfx.ipdom.get(bb)
+                            if bb is None:
+                                break
+                            rest = f.blocks[bb]['stmts']
+                        if not rest:
+                            continue
+                        nx = rest[0]
+                        k = sx.key(sx.strip(st[1]))
+                        if sx.kind(nx) == 'assign' and sx.key(sx.strip(nx[1])) == k and any(sx.key(y) == k for y in sx.walk(nx[2])):
+                            dec.setdefault(t[1], []).append((f, sx.line(nx), nx[2], k))
+    n = 0
+    for tname in sorted(set(enc) & set(dec)):
+        try:
+            vals = list(flatten(prog.glob(tname)['init']))
+        except Exception:
+            vals = None
+        if not vals:
+            continue
+        for ef, el, ee, ek in enc[tname]:
+            for df, dl, de, dk in dec[tname]:
+                n += 1
+                inst = '%s:%s symbol maps of %s (line %s) and %s (line %s) are inverse' % (prog.config, tname, ef.name, el, df.name, dl)
+                where = '%s:%s' % (df.file, dl)
+                bad = None
+                seen = {}
+                for s_ in range(len(vals)):
+                    v = decide.ev3(de, {dk: s_})
+                    back = decide.ev3(ee, {ek: v}) if v is not None else None
+                    if v is None or back is None:
+                        bad = ('unresolved', 'symbol %d not evaluable' % s_)
+                        break
+                    if back != s_:
+                        bad = ('violated', 'symbol %d is decoded to %d, which the encoder writes as symbol %d' % (s_, v, back))
+                        break
+                    if v in seen:
+                        bad = ('violated', 'symbols %d and %d both decode to %d' % (seen[v], s_, v))
+                        break
+                    seen[v] = s_
+                rep.functions.add(df.name)
+                if bad is None:
+                    rep.holds('R17.11', inst, where, '%d symbols: decoded values %s' % (len(vals), sorted(seen)))
+                elif bad[0] == 'unresolved':
+                    rep.unresolved('R17.11', inst + ': ' + bad[1])
+                else:
+                    rep.violated('R17.11', inst, where, bad[1], key='%s:symbol-map' % tname)
+    return n
+
+
 # ------------------------------------------------------------------ R17.7
 def _is_mask_def(r):
     r = sx.strip(r)
@@ -993,6 +1079,7 @@ def check(rep, prog, tier):
     r17_6(rep, prog)
     r17_9(rep, prog, tier)
     r17_10(rep, prog)
+    r17_11(rep, prog)
     pt = PointsTo(prog)
     r17_1(rep, prog, pt)
     if 'CELT_PVQ_U_DATA' in prog.globals:
